@@ -61,6 +61,15 @@ CHECKS["C05"] = dict(
          "PI steps and solve sequences, bit-exact; converged evaluations checked against driver-verified exact policy values.",
     technique="Lean 4 theorems over the executable evaluation/improvement model + differential injection tests on the real PolicyIteration",
     ref="§8 C05")
+CHECKS["C04"] = dict(
+    text="Theorems (gamma = 1, any solution (g,h) of the optimality equation T h = h + g, any solution (g_d,h_d) of the returned policy's "
+         "evaluation equation): min(TV-V) <= g <= max(TV-V) for every V; the gain invariant gain = values[last] holds at every state the loop "
+         "visits (from a fresh solver too, after the fix recorded in known_findings.json); whenever solve() reports convergence "
+         "|gain - g| < eps, |T V - V - gain| < eps at every state, 0 <= g - g_d < eps. Existence of (g,h) for unichain MDPs is textbook, not "
+         "formalised; per instance the driver verifies exact certificates. Tie: real RVI to convergence on generated unichain aperiodic MDPs "
+         "(incl. targeted initial values = bias + constant), certificates verified by the Lean driver, exact rational inequalities.",
+    technique="Lean 4 proof of the gain bracket / residual bounds from monotone+shift at gamma=1 + certificate-checked runs of the real solver",
+    ref="§8 C04", note="Existence of a solution of the average-reward optimality equation for unichain MDPs (Puterman 8.4) is assumed, not proved.")
 PENDING = {}
 
 
